@@ -21,12 +21,12 @@ func main() {
 		id++
 	}
 	reproDrainOverlap(&id, f.Seed, cf, meta)
-	nScripts := f.Count(300, 20000)
+	nScripts := f.Count(300, 10000)
 	for i := 0; i < nScripts; i++ {
 		runScript(id, f.Seed, i, nil, cf, meta)
 		id++
 	}
-	nConc := f.Count(20, 500)
+	nConc := f.Count(20, 300)
 	for i := 0; i < nConc; i++ {
 		runConc(&id, f.Seed, 1000000+i, nil, cf, meta)
 	}
